@@ -45,6 +45,8 @@ func init() {
 			"references into extension members for every component kind (valid / nested reference of another kind back to the same text / null child / degenerate, at the component and at a use site), " +
 			"a path item with $ref and content with every position below it as null or a reference; " +
 			"external references (fragment into another document in three spellings, whole file) of every component kind at its use sites and as a component × six shapes of the root's components section; " +
+			"typed values below a schema (9 spellings of type × 5 formats × example / default / enum / parameter example / media-type example × 10 JSON values, JSON and YAML); " +
+			"histories of loads through the library's own cached reader on real files (same file twice then another, one loader or a fresh one per load, LoadFromFile / LoadFromURI, whole-file references read twice in one load); " +
 			"seeded random stream: 1–4 structure-aware mutations of valid documents (replace a subtree by null/number/string/array/object/$ref/a subtree of another kind, " +
 			"insert any OpenAPI keyword, delete, swap kinds), the same written as YAML with anchors/aliases for repeated sub-trees, merge keys, non-string keys and YAML spellings of booleans and null, " +
 			"huge scalars (1 MiB string, 64 Ki key, 400-digit numbers, 64 Ki-token fragment, 64 Ki enum), token-level mutations of the serialised text (delete/duplicate/replace/swap tokens, truncate), YAML forms " +
@@ -60,7 +62,7 @@ func init() {
 		Assumptions: []string{
 			"JSON/YAML parsers and marshmallow are not modelled: the parse of the bytes (encoding/json, else oasdiff/yaml YAMLToJSON) is computed by the harness and handed to the model as the document tree",
 			"every case runs in a child process with a 16 MiB stack limit and a timeout of 20 s (a case that exceeds it is run once more, alone, with 60 s: only then it counts as a hang); a fatal crash or timeout is an observation; after 3000 crashed or 12 hung children, or 300 s (thorough: 1500 s) of wall time, the remaining cases of a run are skipped (counted as impl_outcome_kinds.skipped) — the run cannot stall as a whole",
-			"external files are served from memory through ReadFromURIFunc (no disk or network access)",
+			"external files are served from memory through ReadFromURIFunc (no disk or network access), except in the history block: real files below a scratch directory (os.MkdirTemp, removed after the case) read by DefaultReadFromURI, each case bounded by a 12 s watchdog inside the child (its exit is the observation hang)",
 		},
 	})
 }
@@ -143,6 +145,10 @@ func runC20Isolated(c hx.Case) any {
 				}
 			}
 		}
+	}
+	if m, ok := obs.(map[string]any); ok && c20IsWatchdog(m) {
+		// the child's own watchdog ended it (history cases): the observation is "no return"
+		obs = map[string]any{"hang": true, "watchdog_ms": c20WatchdogMs}
 	}
 	if m, ok := obs.(map[string]any); ok {
 		if _, crashed := m["crash"]; crashed {
@@ -343,17 +349,27 @@ func runC20(c hx.Case) any {
 		return nil, fmt.Errorf("no such file %q", u.String())
 	}
 	var doc *openapi3.T
-	ok := o.stage("load", func() (err error) {
-		switch jstr(c, "entry") {
-		case "path":
-			doc, err = loader.LoadFromDataWithPath(data, &url.URL{Path: "/r/root.json"})
-		case "file":
-			doc, err = loader.LoadFromFile("/r/root.json")
-		default:
-			doc, err = loader.LoadFromData(data)
-		}
-		return
-	})
+	var ok bool
+	if jstr(c, "reader") == "default" {
+		// history cases (c20_r5.go): the library's own reader on real files, a sequence of loads, bounded by a watchdog
+		stop := c20Watchdog()
+		defer stop()
+		var cleanup func()
+		doc, ok, cleanup = c20RunHistory(c, o, data, files)
+		defer cleanup()
+	} else {
+		ok = o.stage("load", func() (err error) {
+			switch jstr(c, "entry") {
+			case "path":
+				doc, err = loader.LoadFromDataWithPath(data, &url.URL{Path: "/r/root.json"})
+			case "file":
+				doc, err = loader.LoadFromFile("/r/root.json")
+			default:
+				doc, err = loader.LoadFromData(data)
+			}
+			return
+		})
+	}
 	if ok && doc != nil {
 		ctx := context.Background()
 		o.stage("validate", func() error { return doc.Validate(ctx) })
@@ -536,7 +552,6 @@ func c20Census(f string, c hx.Case, im map[string]any, reply map[string]any) {
 	b, _ := json.Marshal(map[string]any{"impl": im, "case": c, "excl": reply["excl"], "model": reply["model"]})
 	fh.Write(append(b, '\n'))
 }
-
 
 // ---------------------------------------------------------------- JSON tree helpers
 
@@ -1177,6 +1192,9 @@ func genC20(ctx *hx.Ctx, emit func(hx.Case)) {
 	c20ExtensionTargetCases(emit)
 	c20UnwalkedCases(small, emit)
 	c20ExternalUseCases(emit)
+	// 1g–1h (round 5). typed values below a schema; histories of loads through the library's own reader
+	c20TypedValueCases(ctx, emit)
+	c20HistoryCases(emit)
 
 	// 2. YAML forms, degenerate byte strings, deep nesting
 	for _, y := range c20YamlSpecials {
@@ -1647,6 +1665,9 @@ func shrinkC20All(c hx.Case) []hx.Case {
 			out = append([]hx.Case{c20Case(d, "json", jstr(c, "entry"), jbool(c, "ext"), false)}, out...)
 		}
 		return out
+	}
+	if _, ok := c["seq"]; ok {
+		return c20ShrinkHistory(c)
 	}
 	doc := c["doc"]
 	mk := func(d any) hx.Case {
